@@ -309,8 +309,10 @@ func runC14(c C14Case) (out core.Outcome) {
 				out.Violation = core.Viol("C14/unsupported-type:"+c.Carrier, "message of type %T: %d bytes transmitted, %d exceptions (want 0 bytes, 1 exception)", msg, len(acc), len(exs))
 			}
 		case c.Carrier == "errafter":
-			if !bytes.Equal(acc, want) || len(exs) != 1 || !errors.Is(exs[0], errC14) {
-				out.Violation = core.Viol("C14/failing-reader", "reader failing after %d bytes: %d bytes transmitted (equal to the prefix: %v), exceptions %v", len(want), len(acc), bytes.Equal(acc, want), exs)
+			// the statement is silent on how much of a failing source is transmitted (a streaming head sends what it
+			// got, a collecting one nothing): any prefix of what the reader delivered, and the failure as an exception
+			if !bytes.HasPrefix(want, acc) || len(exs) != 1 || !errors.Is(exs[0], errC14) {
+				out.Violation = core.Viol("C14/failing-reader", "reader failing after %d bytes: %d bytes transmitted (a prefix of what it delivered: %v), exceptions %v", len(want), len(acc), bytes.HasPrefix(want, acc), exs)
 			}
 		default:
 			if len(exs) != 0 {
